@@ -288,10 +288,21 @@ def _sensitivity_action(rng):
     cands = sorted(p for p, e in c.items() if syms(e) and any("*" not in g for g in e["goals"]))
     path = rng.choice(cands)
     e = c[path]
-    v = rng.choice([g for g in e["goals"] if "*" not in g])
+    plain = [g for g in e["goals"] if "*" not in g]
+    vs = rng.sample(plain, min(len(plain), rng.choice([1, 2, 2, 3])))      # several goals: their order must not matter
     sym = rng.choice(syms(e))
-    ns = {"goals": [f"E({v})"]}
+    ns = {"goals": [f"E({v})" for v in vs]}
     ns["sensitivity_analysis" if rng.random() < 0.5 else "sensitivity_analysis_diff"] = sym
+    if rng.random() < 0.5:
+        # a small parametric loop in which one goal variable feeds the other
+        upd_y = rng.choice(["y = y + 1", "y = y + 1 {p} y", "y = y + p", "y = y + 1 {1/2} y - 1"])
+        upd_x = rng.choice(["x = x + p*y", "x = x + y {p} x", "x = x + y", "x = p*x + y"])
+        body = [upd_y, upd_x] if rng.random() < 0.7 else [upd_x, upd_y]
+        text = "x = 0\ny = 0\nwhile true:\n    " + "\n    ".join(body) + "\nend\n"
+        if "p" in text.replace("end", ""):
+            goals = [f"E({v})" for v in rng.sample(["x", "y"], 2)] + ([f"E(x*y)"] if rng.random() < 0.3 else [])
+            ns = {"goals": goals, ("sensitivity_analysis" if rng.random() < 0.6 else "sensitivity_analysis_diff"): "p"}
+            return {"kind": "action", "pid": "sens:" + hashlib.sha256(text.encode()).hexdigest()[:10], "files": [{"text": text}], "namespace": ns, "options": {}}
     return {"kind": "action", "pid": "sens:" + path, "files": [{"path": path}], "namespace": ns, "options": {}}
 
 
